@@ -881,3 +881,66 @@ func RAtomSucc(c *core.Ctx) {
 		c.Anchor("kind tests in canBeMadeAtomic")
 	}
 }
+
+// R-MAXASMIN: "occurs at least once" is a statement about the MINIMUM.
+func RMaxAsMin(c *core.Ctx) {
+	c.Rule("R-MAXASMIN", "in the compile-time analyses (prefix.go, prefixanalyzer.go, optimizations.go) no condition tests a node's maximum iteration count N against 0 or 1 with >, >= or != : whether a loop's content is required is decided by its minimum M (N >= 1 holds for every loop that is not {0}); arithmetic on N elsewhere in the tree code is not concerned", 1)
+	p := c.P
+	syn := p.Pkg("syntax")
+	info := syn.TypesInfo
+	nField := p.LookupField("syntax", "RegexNode", "N")
+	if nField == nil {
+		c.Anchor("syntax.RegexNode.N")
+		return
+	}
+	n, examined := 0, 0
+	for _, fd := range p.FuncDecls(syn) {
+		if fd.Body == nil {
+			continue
+		}
+		pos := p.Pos(fd.Pos())
+		if !(strings.HasPrefix(pos, "syntax/prefix.go") || strings.HasPrefix(pos, "syntax/prefixanalyzer.go") || strings.HasPrefix(pos, "syntax/optimizations.go")) {
+			continue
+		}
+		name := core.DeclName(syn, fd)
+		ast.Inspect(fd.Body, func(x ast.Node) bool {
+			be, ok := x.(*ast.BinaryExpr)
+			if !ok {
+				return true
+			}
+			l, r, op := be.X, be.Y, be.Op
+			if core.FieldOf(info, r) == nField {
+				l, r = r, l
+				switch op {
+				case token.LSS:
+					op = token.GTR
+				case token.LEQ:
+					op = token.GEQ
+				case token.GTR:
+					op = token.LSS
+				case token.GEQ:
+					op = token.LEQ
+				}
+			}
+			if core.FieldOf(info, l) != nField {
+				return true
+			}
+			examined++
+			k, isC := core.ConstInt(info, r)
+			if !isC {
+				return true
+			}
+			if (op == token.GTR && k == 0) || (op == token.GEQ && k == 1) || (op == token.NEQ && k == 0) {
+				n++
+				c.Visit(name)
+				c.Bad(fmt.Sprintf("%s / a requiredness test uses the maximum N #%d", name, n), be.Pos(),
+					"`%s` holds for every loop that may iterate at all, including optional ones ([+-]?, x*): content of such a loop is then treated as required and published as a fact about every match", types.ExprString(be))
+			}
+			return true
+		})
+	}
+	c.Note("R-MAXASMIN: %d comparisons of .N examined", examined)
+	if n == 0 {
+		c.OK("analyses / no requiredness test on the maximum iteration count", token.NoPos, "%d comparisons of .N examined, none of the form N > 0 / N >= 1 / N != 0", examined)
+	}
+}
